@@ -287,4 +287,16 @@ PROPS["C18"] = {
     "assumptions": ["Proxy.Connect completes before Serve accepts clients (start-up writes)", "sync.Map, atomic and channel fields are race-free by construction and are not tracked"],
 }
 
+PROPS["C19"] = {
+    "module": "CqlVerif.Props.C19",
+    "gens": ["tls"],
+    "streams": [{"name": "tls", "quick": 300, "thorough": 20000}],
+    "shrink": False,
+    "claim": "Lean theorems over Model/Tls (abstract certificates: key, signing key, names, validity, CA flag): accept_sound (accepted => the leaf names the bundle's host, is valid at handshake time and is linked to a bundle root by a path of valid CA certificates from the presented chain - for every bundle, chain and time), reject_empty / reject_wrong_name / reject_outside_validity / reject_untrusted (self-signed, other CA with or without that CA appended, missing intermediate), client_identity (SNI = node id, client certificate only to accepted servers); tls_shape_ok ties the model to astra/endpoint.go, astra/bundle.go, proxycore/conn.go through syntax-tree facts regenerated on every run (what the per-node config and the VerifyOptions contain, built inside the callback, fresh intermediate pool, handshake before start); the tls stream runs real handshakes (metadata service and node connections through contact-point and host-id endpoints) against servers presenting generated chains and compares accept/reject, application bytes reaching the server, SNI and the client certificate seen with the model",
+    "note": "crypto/x509 path building and crypto/tls are trusted and abstracted (signatures, name constraints, key usages, path length are not modelled; the generator keeps to the attributes the model has); system root pool assumed not to contain the generated CAs. Trusted: Lean kernel, extractor, harness PKI generator",
+    "rule": "tls: 24 named chains (valid leaf, two names, other CA leaf with/without its CA, self-signed (CA / twice), wrong / no name, expired, not yet valid, intermediate present / missing / not a CA / expired / under another CA, two intermediates in and out of order, intermediate loop, leaf signed by leaf, bundle CA as leaf, CA appended, junk appended, right name only on a second certificate) x {metadata service, contact-point endpoint, host-id endpoint}; certificates that expire / become valid between endpoint creation and connection; generated chains of depth 1-4 with random signer / validity / name / CA-flag faults and shuffled order; distinct = distinct (target, chain)",
+    "trusted_base": [KERNEL, DRIVER, HARNESS, "Gen/TlsFacts.lean regenerated by `vh extract tls` (go/ast)", "Spec/TlsShape.lean, Model/Tls.lean hand-written", "Go crypto/x509 and crypto/tls"],
+    "assumptions": ["the system certificate pool does not contain the test CAs", "certificates differ only in the modelled attributes"],
+}
+
 NOT_APPLICABLE = {}
